@@ -509,6 +509,20 @@ def main():
     aud = audit(pid) if lean_ok else dict(ok=False, theorems=0, property_theorems=[], axioms=[], forbidden=[],
                                           bad_axioms=[], modules=[], raw=lean_msg, per_theorem={})
     proof_ok = lean_ok and aud["ok"]
+    recheck = None
+    if tier == "thorough" and proof_ok:
+        # independent re-check of every compiled module of the property's import closure
+        import concurrent.futures as _cf
+        def _lc(m):
+            rc_, out_ = sh(f"lake env leanchecker {m}", cwd=LEAN, timeout=3600)
+            return m, rc_, out_[-300:]
+        with _cf.ThreadPoolExecutor(8) as ex:
+            res_lc = list(ex.map(_lc, aud["modules"]))
+        bad_lc = [(m, o) for m, rc_, o in res_lc if rc_ != 0]
+        recheck = dict(modules=len(res_lc), failed=[m for m, _ in bad_lc])
+        if bad_lc:
+            proof_ok = False
+            lean_msg = "leanchecker failed: " + repr(bad_lc[:3])
 
     if replay:
         doc = json.load(open(replay))
@@ -690,7 +704,7 @@ def main():
             traces_validated_against_impl=len(all_runs), diverging_cases=len(res["diff_runs"]),
             channels_compared=cfg["fields"], oracles=cfg["oracles"], streams=dict(stats),
             op_distribution=dict(opkinds), outcome_distribution=dict(paths),
-            known_finding_instances=dict(res["known_hits"]), extra=extra_cov,
+            known_finding_instances=dict(res["known_hits"]), extra=extra_cov, leanchecker=recheck,
         ),
         assumptions=["the theorems are about the Lean model; the model is validated against the implementation only on the histories run",
                      "properties with hypothesis P (adoption contract) are judged by oracles only on histories that respect it"],
